@@ -344,7 +344,13 @@ impl Engine for Emplace {
                         continue;
                     }
                     for n in 0..=top {
-                        for off in 0..a.max(if portable { 8 } else { 1 }) {
+                        // every residue modulo ALIGN, and (for the lengths around the fit) addresses aligned to
+                        // ALIGN and to nothing more: 1, 3 and 5 times ALIGN modulo 64
+                        let mut offs: Vec<usize> = (0..a.max(if portable { 8 } else { 1 })).collect();
+                        if n + 1 >= need && n <= need + a {
+                            offs.extend([a, 3 * a, 5 * a].into_iter().filter(|o| *o < 64 && *o >= a.max(if portable { 8 } else { 1 })));
+                        }
+                        for off in offs {
                             let aligned = off % a == 0;
                             let fills: &[u8] = if aligned && n >= need { &FILLS } else { &FILLS[2..] };
                             let mut images: Vec<Vec<u8>> = vec![];
@@ -456,7 +462,11 @@ impl Engine for Emplace {
                     let need = (0..=avail).find(|n| encode(&d, &dv, *n, 0).is_ok()).unwrap_or(avail);
                     let top = need + 2 * a + if d.is_sized() { 2 } else { 8 };
                     for n in 0..=top {
-                        for off in 0..a {
+                        let mut offs: Vec<usize> = (0..a).collect();
+                        if n + 1 >= need && n <= need + a {
+                            offs.extend([a, 3 * a, 5 * a].into_iter().filter(|o| *o < 64 && *o >= a));
+                        }
+                        for off in offs {
                             let fills: &[u8] = if off == 0 && n >= need { &[0x00, 0xFF, 0xEE, 0x11] } else { &[0xEE] };
                             let mut images: Vec<Vec<u8>> = vec![];
                             for &fill in fills {
